@@ -253,6 +253,11 @@ class SGetter(SV):
     def __init__(self, kind, arg): self.kind, self.arg = kind, arg
 
 
+class SDictC(SV):
+    """dict with concrete string keys (kwargs, small literal dicts)"""
+    def __init__(self, d): self.d = dict(d)
+
+
 class SSlice(SV):
     def __init__(self, lo, hi, step): self.lo, self.hi, self.step = lo, hi, step
 
